@@ -26,6 +26,7 @@ func init() {
 			{ID: "R19c", Floor: 3, Doc: "filter gate polarity, root filtering by the same predicate, scan ends only on EOF", Run: ruleR19c},
 			{ID: "R19d", Floor: 5, Doc: "re-emission offsets and pass-through copies", Run: ruleR19d},
 			{ID: "R19f", Floor: 3, Doc: "concat skips each input's own header; `index create` regenerates the index from the payload; CLI output files are opened truncating", Run: ruleR19f},
+			{ID: "R19g", Floor: 1, Doc: "car verify applies its index-placement check only to archives whose header claims an index", Run: ruleR19g},
 			{ID: "R19e", Floor: 2, Doc: "get-dag: link-visit-once derives from !IsSet(selector)", Run: ruleR19e},
 		},
 	})
@@ -626,4 +627,36 @@ func ruleR19f(c *Ctx, r *Report) {
 		}
 	}
 	r.Hold("output-open@cmd", "-", fmt.Sprintf("%d os.OpenFile-for-write call(s) in the CLI, the rest uses os.Create (truncating)", n))
+}
+
+func ruleR19g(c *Ctx, r *Report) {
+	fn, err := c.Func(pkgCmdLib, "", "VerifyCar")
+	if err != nil {
+		r.InfraFail("%v", err)
+		return
+	}
+	key := "verify-indexless@" + fnKey(fn)
+	isIO := func(v ssa.Value) bool { return loadsField(canon(v), modV2, "Header", "IndexOffset") }
+	// failing outcome of `IndexOffset < something non-constant`
+	var fails []Edge
+	for _, e := range cmpEdges(fn, isIO, func(v ssa.Value) bool { _, isK := constInt(v); return !isK }, "lt") {
+		fails = append(fails, e)
+	}
+	if len(fails) == 0 {
+		r.Exempt(key, c.Pos(fn.Pos()), "no index-placement comparison in VerifyCar")
+		return
+	}
+	claimed := condEdges(fn, matchCallCond(modV2, "Header", "HasIndex", true, nil))
+	claimed = append(claimed, cmpEdges(fn, isIO, func(v ssa.Value) bool { k, ok := constInt(v); return ok && k == 0 }, "ne")...)
+	bad := ""
+	reachable := reach(fn, nil, edgeSet(claimed))
+	for _, e := range fails {
+		// the failing edge must only be taken when an index is claimed
+		tgt := e.From.Succs[e.Succ]
+		if reachable[e.From] && reachable[tgt] {
+			// is the comparison itself part of a conjunction with the claim? then e.From is behind `claimed`
+			bad = "the check `IndexOffset < end of data` is applied to archives without an index (IndexOffset == 0): every index-less CARv2, e.g. the output of `car index --codec none`, is rejected by car verify"
+		}
+	}
+	r.Check(bad == "", key, c.Pos(fn.Pos()), "index-placement check only behind HasIndex()", bad)
 }
